@@ -502,15 +502,20 @@ func (encryptor *QueryDataEncryptor) encryptInsertValues(ctx context.Context, in
 		logger.WithError(err).Errorln("Can't extract placeholders from INSERT query")
 		return values, false, err
 	}
-	encryptor.savePlaceholderSettingIntoClientSession(ctx, placeholders, schema)
-
-	// TODO(ilammy, 2020-10-13): handle ON DUPLICATE KEY UPDATE clauses
-	// These clauses are handled for textual queries. It would be nice to encrypt
-	// any prepared statement parameters that are used there as well.
-	// See "encryptInsertQuery" for reference.
-	if len(insert.OnDup) > 0 {
-		logrus.Warning("ON DUPLICATE KEY UPDATE is not supported in prepared statements")
+	// ON DUPLICATE KEY UPDATE column = ?: the placeholder stands for a value of that column of the
+	// same table, exactly as in UPDATE ... SET (see "encryptUpdateValues" and, for textual queries,
+	// "encryptInsertQuery")
+	if placeholders != nil {
+		for _, expr := range insert.OnDup {
+			if value, ok := expr.Expr.(*sqlparser.SQLVal); ok {
+				if err := encryptor.updatePlaceholderMap(len(values), placeholders, value, expr.Name.Name.String()); err != nil {
+					logger.WithError(err).Errorln("Can't extract placeholders from ON DUPLICATE KEY UPDATE clause")
+					return values, false, err
+				}
+			}
+		}
 	}
+	encryptor.savePlaceholderSettingIntoClientSession(ctx, placeholders, schema)
 
 	// Now that we know the placeholder mapping,
 	// encrypt the values inserted into encrypted columns.
